@@ -29,6 +29,10 @@ pub struct ReqSpec {
     pub body_chunk: usize,
     pub body_delay_ms: u64,
     pub handler: HandlerPlan,
+    /// HTTP/1 pipelining: right behind this request the client already writes this many bytes
+    /// of the next request on the connection (0 = it waits for the response first)
+    #[serde(default)]
+    pub pipeline_bytes: usize,
 }
 
 #[derive(Clone, Copy, Debug, Serialize, Deserialize, PartialEq, Eq)]
@@ -75,6 +79,10 @@ pub struct ShutdownCase {
     /// the acceptor wraps connections in TLS (lazy handshake inside the connection task)
     #[serde(default)]
     pub tls: bool,
+    /// an http1-only server is built with Server::builder().with_http1() (hyperdriver's own
+    /// protocol configuration) instead of an explicitly configured hyper builder
+    #[serde(default)]
+    pub native_builder: bool,
 }
 
 #[derive(Clone, Debug, Default)]
@@ -116,8 +124,9 @@ async fn client_io(io: SimStream, tls: bool) -> Result<Box<dyn Io>, String> {
     }
 }
 
-async fn read_response(io: &mut Box<dyn Io>, id: u32, resp_len: usize) -> Result<(), String> {
-    let mut buf: Vec<u8> = vec![];
+/// `carry`: bytes already read from the connection that belong to the next response (pipelining).
+async fn read_response(io: &mut Box<dyn Io>, id: u32, resp_len: usize, carry: &mut Vec<u8>) -> Result<(), String> {
+    let mut buf: Vec<u8> = std::mem::take(carry);
     let mut tmp = [0u8; 4096];
     let head_end = loop {
         if let Some(p) = buf.windows(4).position(|w| w == b"\r\n\r\n") {
@@ -150,6 +159,7 @@ async fn read_response(io: &mut Box<dyn Io>, id: u32, resp_len: usize) -> Result
     if buf[head_end..head_end + clen] != resp_body(id, resp_len)[..] {
         return Err("response body differs from what the handler sent".into());
     }
+    *carry = buf[head_end + clen..].to_vec();
     Ok(())
 }
 
@@ -176,8 +186,12 @@ async fn raw_h1_conn_on(net: Network, plan: ConnPlan, obs: Arc<Mutex<ConnObs>>, 
             return;
         }
     };
-    for r in &plan.reqs {
-        if r.gap_ms > 0 {
+    // bytes of a request that were already written behind its predecessor (pipelining)
+    let mut presend: usize = 0;
+    let mut carry: Vec<u8> = vec![];
+    for (ri, r) in plan.reqs.iter().enumerate() {
+        let already = std::mem::take(&mut presend);
+        if r.gap_ms > 0 && already == 0 {
             // idle keep-alive: the server may close the connection meanwhile
             let mut b = [0u8; 1];
             match tokio::time::timeout(Duration::from_millis(r.gap_ms), io.read(&mut b)).await {
@@ -188,9 +202,12 @@ async fn raw_h1_conn_on(net: Network, plan: ConnPlan, obs: Arc<Mutex<ConnObs>>, 
                 _ => {}
             }
         }
-        let head = head_bytes(r);
+        let full_head = head_bytes(r);
+        let head = &full_head[already.min(full_head.len())..];
+        let next_head = plan.reqs.get(ri + 1).map(head_bytes);
+        let mut sent_of_next = 0usize;
         let send = async {
-            match r.head_split {
+            match r.head_split.filter(|_| already == 0) {
                 Some((at, pause)) => {
                     let at = at.min(head.len() - 1).max(1);
                     io.write_all(&head[..at]).await?;
@@ -198,7 +215,7 @@ async fn raw_h1_conn_on(net: Network, plan: ConnPlan, obs: Arc<Mutex<ConnObs>>, 
                     tokio::time::sleep(Duration::from_millis(pause)).await;
                     io.write_all(&head[at..]).await?;
                 }
-                None => io.write_all(&head).await?,
+                None => io.write_all(head).await?,
             }
             let body = req_body(r.id, r.body_len);
             for c in body.chunks(r.body_chunk.max(1)) {
@@ -207,17 +224,24 @@ async fn raw_h1_conn_on(net: Network, plan: ConnPlan, obs: Arc<Mutex<ConnObs>>, 
                 }
                 io.write_all(c).await?;
             }
+            if let (Some(nh), true) = (&next_head, r.pipeline_bytes > 0) {
+                // the beginning (or all) of the next request's head goes out before this response is read
+                sent_of_next = r.pipeline_bytes.min(nh.len());
+                io.write_all(&nh[..sent_of_next]).await?;
+            }
             io.flush().await
         };
         if obs.lock().first_byte_ms.is_none() {
             obs.lock().first_byte_ms = Some(net.now_ms());
         }
-        if let Err(e) = send.await {
+        let sent = send.await;
+        presend = sent_of_next;
+        if let Err(e) = sent {
             obs.lock().results.push((r.id, net.now_ms(), Some(format!("send: {}", e.kind()))));
             obs.lock().closed_ms = Some(net.now_ms());
             return;
         }
-        let res = read_response(&mut io, r.id, r.handler.resp_len).await;
+        let res = read_response(&mut io, r.id, r.handler.resp_len, &mut carry).await;
         let now = net.now_ms();
         let failed = res.is_err();
         obs.lock().results.push((r.id, now, res.err()));
@@ -369,6 +393,7 @@ fn draw_req(r: &mut Rng, id: u32, first: bool) -> ReqSpec {
         body_len,
         body_chunk: *r.pick(&[50usize, 500, 5000]),
         body_delay_ms: *r.pick(&[0u64, 1, 4]),
+        pipeline_bytes: *r.weighted(&[(3, 0usize), (1, 8), (1, 400)]),
         handler: HandlerPlan {
             delay_ms: *r.pick(&[0u64, 2, 10, 25]),
             resp_len: *r.pick(&[0usize, 10, 500, 6000]),
@@ -427,7 +452,7 @@ impl Scenario for ShutdownSim {
             }
             conns.push(ConnPlan { kind, start_ms: r.below(30), reqs });
         }
-        ShutdownCase { seed, proto, conns, signal_at_ms: r.below(60), io_faulty: r.chance(1, 3), tls }
+        ShutdownCase { seed, proto, conns, signal_at_ms: r.below(60), io_faulty: r.chance(1, 3), tls, native_builder: r.bool() }
     }
 
     fn execute(&self, case: &ShutdownCase) -> Outcome {
@@ -461,7 +486,7 @@ impl Scenario for ShutdownSim {
                 let net_s = net.clone();
                 let server = tokio::task::spawn_local({
                     let tls_cfg = if case.tls { Some(crate::tlsfix::server_config(crate::tlsfix::CertKind::Good, &[])) } else { None };
-                    let f = run_server(acc, case.proto, tls_cfg, ctx, exec.clone(), Some(rx));
+                    let f = run_server_opts(acc, case.proto, tls_cfg, ctx, exec.clone(), Some(rx), case.native_builder);
                     async move {
                         let r = f.await;
                         // completion instant (and how much of the clock's progress was the time pump's)
@@ -510,7 +535,7 @@ impl Scenario for ShutdownSim {
                         let plan = ConnPlan {
                             kind: ConnKind::RawH1,
                             start_ms: 0,
-                            reqs: vec![ReqSpec { id: 902, gap_ms: 0, head_split: None, body_len: 0, body_chunk: 10, body_delay_ms: 0, handler: HandlerPlan::default() }],
+                            reqs: vec![ReqSpec { id: 902, gap_ms: 0, head_split: None, body_len: 0, body_chunk: 10, body_delay_ms: 0, handler: HandlerPlan::default(), pipeline_bytes: 0 }],
                         };
                         raw_h1_conn_on(net, plan, o, io, tls).await;
                     }));
@@ -526,7 +551,7 @@ impl Scenario for ShutdownSim {
                         let plan = ConnPlan {
                             kind: ConnKind::RawH1,
                             start_ms: 0,
-                            reqs: vec![ReqSpec { id: k, gap_ms: 0, head_split: None, body_len: 0, body_chunk: 10, body_delay_ms: 0, handler: HandlerPlan::default() }],
+                            reqs: vec![ReqSpec { id: k, gap_ms: 0, head_split: None, body_len: 0, body_chunk: 10, body_delay_ms: 0, handler: HandlerPlan::default(), pipeline_bytes: 0 }],
                         };
                         raw_h1_conn(net, plan, o, None, tls).await;
                     }));
